@@ -46,6 +46,9 @@ type vfC11Case struct {
 	// refills in the middle of a trigger
 	PauseBefore int `json:"pause_before,omitempty"`
 	PauseMs     int `json:"pause_ms,omitempty"`
+	// FirstModel, when set, is the model of a camera that was connected (and sent a few still frames) before
+	// this one, to the same daemon: what the earlier camera was must not shape this camera's files
+	FirstModel string `json:"first_model,omitempty"`
 }
 
 func vfGenCam(t *rapid.T) vfCamDesc {
@@ -212,6 +215,9 @@ func vfGenC11(t *rapid.T) vfC11Case {
 		c.Base[p] = v
 	}
 	c.Amp = uint16(int(eff.DeltaThresh) + rapid.SampledFrom([]int{1, 50, 3000}).Draw(t, "amp"))
+	if rapid.IntRange(0, 3).Draw(t, "earlier_camera") == 0 {
+		c.FirstModel = rapid.SampledFrom([]string{"lepton3", "lepton3.5", "boson"}).Draw(t, "first_model")
+	}
 	if simple && c.Cam.FPS <= 5 && rapid.IntRange(0, 11).Draw(t, "throttled_mode") == 0 {
 		// the bucket holds one minimum-length recording, refills within a second; continuous motion
 		c.Conf.Min, c.Conf.Prev, c.Conf.Max = 1, 1, 3
@@ -337,6 +343,9 @@ func vfC11Valid(c vfC11Case) string {
 	if cam.Brand != "flir" || (cam.Model != "lepton3" && cam.Model != "lepton3.5" && cam.Model != "boson") {
 		return "unsupported camera"
 	}
+	if c.FirstModel != "" && c.FirstModel != "lepton3" && c.FirstModel != "lepton3.5" && c.FirstModel != "boson" {
+		return "unsupported earlier camera"
+	}
 	k := c.Conf
 	if k.Min < 0 || k.Max < k.Min || k.Prev < 0 || len(k.DeviceName) > 255 || len(cam.Firmware) > 255 || k.Alt < 0 || (k.Throttle && k.Min+k.Prev < 1) {
 		return "configuration outside the property's domain"
@@ -375,12 +384,38 @@ func vfRunC11(c vfC11Case) *kit.Result {
 		panic(err)
 	}
 	vfResetGlobals()
-	conn, _, err := vfStartConn(dir)
+	conn, parsed, err := vfStartConn(dir)
 	if err != nil {
 		r.Failf("ParseConfig rejected an in-range config.toml: %v", err)
 		return r
 	}
 	eff := vfEffectiveMotion(c.Cam.Model, c.Conf.Motion)
+	if c.FirstModel != "" {
+		// an earlier camera of (possibly) another model: header, three still frames, disconnect; then the camera
+		// under test connects to the same daemon (same Config object, as runMain's accept loop does)
+		first := c.Cam
+		first.Model = c.FirstModel
+		feff := vfEffectiveMotion(first.Model, c.Conf.Motion)
+		ok := conn.Write(vfHeaderBytes(first)) == nil
+		still := append([]uint16{}, c.Base...)
+		for p := range still {
+			if still[p] == 0 {
+				x, y := p%first.W, p/first.W
+				if !(x < feff.EdgePixels || y < feff.EdgePixels || x >= first.W-feff.EdgePixels || y >= first.H-feff.EdgePixels) {
+					still[p] = 1 // the earlier camera's edge may be narrower: keep its frames valid
+				}
+			}
+		}
+		for i := 0; ok && i < 3; i++ {
+			ok = conn.SendFrame(vfRawFrame(first, still, uint32(30000+111*i), 0, uint32(i)), nil) == nil
+		}
+		cerr := conn.Close()
+		if !ok || cerr == nil || !strings.Contains(cerr.Error(), "EOF") {
+			r.Failf("the earlier camera's connection (model %s) ended with %v", c.FirstModel, cerr)
+			return r
+		}
+		conn = vfStartConnWith(parsed)
+	}
 
 	// twin, wired by hand from the generated settings
 	w, _ := window.New(c.Conf.WinStart, c.Conf.WinEnd, c.Conf.Lat, c.Conf.Lon)
@@ -543,6 +578,9 @@ func vfRunC11(c vfC11Case) *kit.Result {
 	if c.Conf.Throttle {
 		r.Class("throttle_on")
 	}
+	if c.FirstModel != "" && c.FirstModel != c.Cam.Model {
+		r.Class("after_camera_of_another_model")
+	}
 	r.NT = len(files) > 0 && nonDefault >= 3
 	return r
 }
@@ -555,7 +593,7 @@ func (c vfCam) FPS() int  { return c.F }
 
 func TestVF_C11(t *testing.T) {
 	kit.Drive(t, "C11", "TestVF_C11",
-		"generated: a config.toml (device id/name incl. 255-byte and YAML/TOML-hostile names, location with timestamp, min/max/preview secs, thermal-motion key subsets so that omitted keys take the camera-model defaults, throttler on/off) parsed by the real ParseConfig; a camera header (flir lepton3 / lepton3.5 / boson, 8x6..20x16, fps 1-30, serial, firmware up to 255 bytes) and a raw stream of 20-90 frames with arbitrary 16-bit pixels (zero border pixels, 1 and 65535 in the interior), arbitrary FPA temperature words and last-FFC times, motion made by a warm blob, fed to the real handleConn over a pipe in lock step. Oracle (differential + round-trip): a twin MotionProcessor wired by hand from the generated settings with an in-memory sink receives the same raw frames; the finished .cptv files must equal the twin's recordings one-to-one - background frame first, every frame pixel-exact with time-on, last-FFC time and temperatures - and carry device name/id, brand, model, serial, firmware, resolution, fps, location, preview-secs and the effective motion settings plus the threshold at trigger. Non-trivial: at least one finished file with min/max/preview all different from the defaults.",
+		"generated: a config.toml (device id/name incl. 255-byte and YAML/TOML-hostile names, location with timestamp, min/max/preview secs, thermal-motion key subsets so that omitted keys take the camera-model defaults, throttler on/off) parsed by the real ParseConfig; a camera header (flir lepton3 / lepton3.5 / boson, 8x6..20x16, fps 1-30, serial, firmware up to 255 bytes) and a raw stream of 20-90 frames with arbitrary 16-bit pixels (zero border pixels, 1 and 65535 in the interior), arbitrary FPA temperature words and last-FFC times, motion made by a warm blob, fed to the real handleConn over a pipe in lock step; in a quarter of the cases a camera of another model was connected to the same daemon before. Oracle (differential + round-trip): a twin MotionProcessor wired by hand from the generated settings with an in-memory sink receives the same raw frames; the finished .cptv files must equal the twin's recordings one-to-one - background frame first, every frame pixel-exact with time-on, last-FFC time and temperatures - and carry device name/id, brand, model, serial, firmware, resolution, fps, location, preview-secs and the effective motion settings plus the threshold at trigger. Non-trivial: at least one finished file with min/max/preview all different from the defaults.",
 		vfGenC11, vfRunC11)
 }
 
